@@ -1,6 +1,9 @@
 import XvcRepo.Model
 import XvcRepo.Storage
 import XvcRepo.CopyMany
+import XvcRepo.OnlyVersionDriver
+import XvcRepo.UserLink
+import XvcRepo.Fault
 /-!
   Line-protocol driver for the repository model (`repomodel`).  One tab-separated command per line,
   one canonical abstraction of the resulting state per line.  `lib/repo_harness.py` sends the same
@@ -105,18 +108,26 @@ structure D where
   cur : String := "A"
   storage : Storage := { objs := fun _ => none }
   skeys : List (Guid × Addr) := []
+  -- I/O fault of the current command (`blocked` lines): hashes whose cache addresses cannot be written
+  blocked : List Bytes := []
 
 def exec (d : D) (cmd : Cmd) : D × String :=
-  let (s, o) := d.st.step d.cfg cmd
+  let (s, o) := if d.blocked.isEmpty then d.st.step d.cfg cmd else d.st.stepBlocked d.cfg d.blocked cmd
   ({ d with st := s }, s!"rc={showOut o} {showState d.tab s}")
 
-def stepLine (d : D) (line : String) : D × String :=
+def stepLineCore (d : D) (line : String) : D × String :=
   match (line.dropEndWhile (· == '\n')).toString.splitOn "\t" with
   | ["cfg", a, m, t] =>
     match a.toNat?, parseMethod m, parseTob t with
     | some a, some m, some t => ({ d with cfg := { algo := a, method := m, tob := t } }, "ok")
     | _, _, _ => (d, "bad-op")
   | ["write", p, h] => let (t, p) := d.tab.intern p; exec { d with tab := t } (.write p (parseHex h))
+  -- a rewrite with other bytes of the same size whose mtime stays in the same whole second as the recorded one (only the
+  -- nanoseconds differ): for the model an edit like any other, it gets a new modification stamp
+  | ["writess", p, h] => let (t, p) := d.tab.intern p; exec { d with tab := t } (.write p (parseHex h))
+  -- an EMPTY digest directory `.xvc/<algo>/<3>/<3>/<58>/` for the bytes at the path (left by a command that failed or was
+  -- killed between mkdir and rename): an empty directory is not an object, the state is what it was
+  | ["emptydir", _] => (d, s!"rc=ok {showState d.tab d.st}")
   | ["delete", p] => let (t, p) := d.tab.intern p; exec { d with tab := t } (.delete p)
   | "track" :: m :: t :: nc :: f :: ps =>
     let (tb, ps) := d.tab.interns ps
@@ -135,6 +146,36 @@ def stepLine (d : D) (line : String) : D × String :=
       | _ => (tb, if b01 a then .all else .current)
     exec { d with tab := tb } (.remove ps sel (b01 f))
   | "untrack" :: ps => let (tb, ps) := d.tab.interns ps; exec { d with tab := tb } (.untrack ps)
+  -- `remove --only-version <string>` with the selection made on the STRING (XvcRepo/OnlyVersion.lean): algorithm identifier,
+  -- the string as typed, force, then `n` triples (path, version index, hex digest) spelling every recorded version of the
+  -- targets (the model's hashes have no spelling), then the targets
+  | "removepfx" :: algo :: v :: f :: n :: rest =>
+    match n.toNat? with
+    | some n =>
+      let (tb, ps) := d.tab.interns (rest.drop (3 * n))
+      let rec triples (tb : Tab) : List String → Tab × List (Digest × List Nat)
+        | p :: k :: h :: r =>
+          let (t, p) := tb.intern p
+          let dg : Option Digest := (d.st.findEnt p).bind (fun e => (d.st.recs e).bind (fun r => r.digests[k.toNat?.getD 0]?))
+          let (t, l) := triples t r
+          (t, (dg.map (fun x => (x, codes h))).toList ++ l)
+        | _ => (tb, [])
+      let (tb, tbl) := triples tb (rest.take (3 * n))
+      let (s, o) := d.st.removeByPrefix (codes algo) (hexOfTable tbl) ps (codes v) (b01 f)
+      ({ d with tab := tb, st := s }, s!"rc={showOut o} {showState tb s}")
+    | none => (d, "bad-op")
+  -- the string-level selection alone: which of the digests the string names
+  | "onlyver" :: algo :: v :: hexes => (d, onlyverAnswer algo v hexes)
+  -- hard links made by the user (XvcRepo/UserLink.lean): `rm p; ln q p` inside the workspace / to a file outside (bytes, write bit)
+  | ["link", p, q] =>
+    let (tb, ps) := d.tab.interns [p, q]
+    match ps with
+    | [p, q] => let s := d.st.userLink p q; ({ d with tab := tb, st := s }, s!"rc=ok {showState tb s}")
+    | _ => (d, "bad-op")
+  | ["linkout", p, h, w] =>
+    let (tb, p) := d.tab.intern p
+    let s := d.st.userLinkOutside p (parseHex h) (b01 w)
+    ({ d with tab := tb, st := s }, s!"rc=ok {showState tb s}")
   | "untrackr" :: nb :: rest =>
     -- untrack --restore-versions; `nb` blocked copies follow as (path, version index) pairs, then the targets
     match nb.toNat? with
@@ -253,16 +294,36 @@ def stepLine (d : D) (line : String) : D × String :=
     | some g =>
       let pairs := rest.map (fun x => match x.splitOn "=" with | [p, o] => (p, o) | _ => (x, "ok"))
       let (tb, ps) := d.tab.interns (pairs.map (·.1))
-      let l : List (Addr × Dl) := (ps.zip (pairs.map (·.2))).filterMap (fun (p, o) =>
+      -- per-path outcome: `ok` | `fc` | `fp` (download command) | `mf` (download ok, the final move into the cache
+      -- fails); the pairs come in the order in which the code moves the objects (cache path strings, which the model
+      -- does not know).  Without `mf` this is `fetch` (theorem `fetchF_all_ok`).
+      let l : List (Addr × Dl × Mv) := (ps.zip (pairs.map (·.2))).filterMap (fun (p, o) =>
         match d.st.targetAddrs [p] with
-        | a :: _ => some (a, if o == "ok" then Dl.ok else if o == "fc" then Dl.failClean else Dl.failPartial [1, 2, 3])
+        | a :: _ => some (a, (if o == "ok" || o == "mf" then Dl.ok else if o == "fc" then Dl.failClean else Dl.failPartial [1, 2, 3]),
+                          (if o == "mf" then Mv.fails 0 else Mv.ok))
         | [] => none)
-      let s1 := fetch (tmp == "same") g d.storage d.st l
-      let (s2, o) := s1.recheck d.cfg (parseMethod m) false ps
-      ({ d with tab := tb, st := s2 }, s!"rc={showOut o} {showState tb s2}")
+      match fetchF (tmp == "same") g d.storage d.st l with
+      | (s1, .ok) =>
+        let (s2, o) := s1.recheck d.cfg (parseMethod m) false ps
+        ({ d with tab := tb, st := s2 }, s!"rc={showOut o} {showState tb s2}")
+      | (s1, o) => ({ d with tab := tb, st := s1 }, s!"rc={showOut o} {showState tb s1}")      -- nothing is rechecked
     | none => (d, "bad-op")
   | [""] => (d, "")
   | _ => (d, "bad-op")
+
+/-- `blocked <k> <path>*k <command line>`: the command runs while nothing can be moved to the cache addresses of the
+    bytes now at the k paths (`St.stepBlocked`, XvcRepo/Fault.lean) -/
+def stepLine (d : D) (line : String) : D × String :=
+  match (line.dropEndWhile (· == '\n')).toString.splitOn "\t" with
+  | "blocked" :: k :: rest =>
+    match k.toNat? with
+    | some k =>
+      let (tb, ps) := d.tab.interns (rest.take k)
+      let bs := ps.filterMap (fun p => (d.st.readThrough p).map (·.1))
+      let (d', out) := stepLineCore { d with tab := tb, blocked := blockedHashes bs } ("\t".intercalate (rest.drop k))
+      ({ d' with blocked := [] }, out)
+    | none => (d, "bad-op")
+  | _ => stepLineCore d line
 
 partial def loop (h : IO.FS.Stream) (out : IO.FS.Stream) (d : D) : IO Unit := do
   let line ← h.getLine
